@@ -12,9 +12,9 @@ from harness import check, replay, tlc
 
 LENSES = {
     "quick": [("core_reduce", 5000), ("core_index", None), ("core_stackcat", 4000), ("binder_names", 5000),
-              ("subs_tensor", 2500), ("subs_chain", None)],
+              ("subs_tensor", 2500), ("subs_chain", None), ("binder_indep", None)],
     "thorough": [("core_pointwise", 30000), ("core_reduce", None), ("core_index", None), ("core_stackcat", None),
-                 ("binder_names", 40000), ("subs_tensor", None), ("subs_chain", None)],
+                 ("binder_names", 40000), ("subs_tensor", None), ("subs_chain", None), ("binder_indep", None)],
 }
 CONFIGS = [{"FUNSOR_USE_TCO": "0", "FUNSOR_TYPECHECK": "0"},
            {"FUNSOR_USE_TCO": "1", "FUNSOR_TYPECHECK": "0"},
